@@ -10,12 +10,13 @@ CONSTANTS Design, MaxEntries
 \* <<"..", "fresh", "x">> needs a directory that does not exist yet outside; <<"a", "sub", "x">> lies two levels below a
 \* possible link
 Paths == { <<"a">>, <<".", "a">>, <<"b">>, <<"a", "b">>, <<"..", "out", "victim">>, <<"a", "..", "..", "out", "x">>,
-           <<"..", "fresh", "x">>, <<"a", "sub", "x">>, <<".">> }      \* <<".">> names the target directory itself
+           <<"..", "fresh", "x">>, <<"a", "sub", "x">>, <<".">>,
+           <<"c.tmp">>, <<"c.txt">> }                  \* two names that share a stem      \* <<".">> names the target directory itself
 Targets == { [abs |-> FALSE, comps |-> <<"..", "out">>], [abs |-> TRUE, comps |-> <<"out">>], [abs |-> FALSE, comps |-> <<"b">>],
              [abs |-> FALSE, comps |-> <<"..", "out", "new">>], [abs |-> TRUE, comps |-> <<"out", "new2">>] }
 Entries == { [comps |-> p, kind |-> "file", data |-> "new", target |-> [abs |-> FALSE, comps |-> <<>>]] : p \in Paths }
            \cup { [comps |-> p, kind |-> "dir", data |-> "", target |-> [abs |-> FALSE, comps |-> <<>>]] : p \in Paths }
-           \cup { [comps |-> p, kind |-> "link", data |-> "", target |-> t] : p \in {<<"a">>, <<"b">>, <<".">>}, t \in Targets }
+           \cup { [comps |-> p, kind |-> "link", data |-> "", target |-> t] : p \in {<<"a">>, <<"b">>, <<".">>, <<"c.tmp">>}, t \in Targets }
            \cup { [comps |-> <<"a">>, kind |-> "other", data |-> "", target |-> [abs |-> FALSE, comps |-> <<>>]] }
 VARIABLES fs, todo, ok
 Init == fs = Fs0 /\ ok = TRUE /\ todo \in UNION { [1..n -> Entries] : n \in 1..MaxEntries }
